@@ -51,7 +51,7 @@ Lemma view_flush (w : word) (b : list word) m : last b w = last (w :: b) m.
 Proof. destruct b as [|c b]; [reflexivity|]. symmetry. rewrite last_cons_ne by discriminate.
   apply last_change_default. discriminate. Qed.
 
-Lemma Inv_init : Inv init.
+Lemma Inv_init isreg : Inv (init isreg).
 Proof.
   repeat split; cbn; intros; try discriminate; auto.
 Qed.
@@ -140,7 +140,7 @@ Proof.
     destruct (ph s) eqn:Eph.
     + (* Idle -> Started *)
       split; [|split; [|split]]; cbn.
-      * intros r0. destruct (HRI r0) as [Hr Hoo]. split; cbn; [exact Hr|]. unfold in_cs; cbn. auto.
+      * intros r0. destruct (HRI r0) as [Hr Hoo]. split; cbn; [exact Hr|]. unfold in_cs; cbn. intros H. apply andb_prop in H. destruct H as [H _]. exact H.
       * discriminate.
       * discriminate.
       * intros [H|H]; discriminate.
@@ -152,7 +152,7 @@ Proof.
       * discriminate.
       * intros _ r0. unfold K; cbn. intros Ho. destruct (HRI r0) as [Hr Hoo]. specialize (Hoo Ho).
         unfold in_cs in Hoo. destruct (pc (rd s r0)) as [|p|p n]; try discriminate.
-        split; [|left; reflexivity]. unfold all_in. constructor; [|constructor]. rewrite Hr. cbn. split; [reflexivity|lia].
+        split; [|left; rewrite Ho, orb_true_r; reflexivity]. unfold all_in. constructor; [|constructor]. rewrite Hr. cbn. split; [reflexivity|lia].
     + exact HI.
     + exact HI.
   - (* scan *)
@@ -163,7 +163,7 @@ Proof.
       pose proof (HK Hsc) as HKs.
       assert (Hgoal : forall w, (old_open (rd s r) = true -> forall p n, pc (rd s r) = R_In p n ->
                          w = W_input \/ (w = W_cur /\ p = gpar s)) ->
-                Inv {| gpar := gpar s; rd := rd s; loc := upd (loc s) r w; ph := U_Scan1 |}).
+                Inv {| gpar := gpar s; rd := rd s; loc := upd (loc s) r w; ph := U_Scan1; reg := reg s |}).
       { intros w Hw. split; [|split; [|split]]; cbn.
         - exact HRI.
         - intros Hx; discriminate Hx.
@@ -185,7 +185,7 @@ Proof.
       assert (Hsc : scanning s) by (right; exact Eph).
       pose proof (HK Hsc) as HKs.
       assert (Hgoal : (old_open (rd s r) = true -> False) ->
-                Inv {| gpar := gpar s; rd := rd s; loc := upd (loc s) r W_qs; ph := U_Scan2 |}).
+                Inv {| gpar := gpar s; rd := rd s; loc := upd (loc s) r W_qs; ph := U_Scan2; reg := reg s |}).
       { intros Hno. split; [|split; [|split]]; cbn.
         - exact HRI.
         - intros Hx; discriminate Hx.
@@ -225,10 +225,26 @@ Proof.
     + intros [H|H]; discriminate.
 Qed.
 
-Theorem gp_waits_for_preexisting_readers :
-  forall s, reach init s -> ph s = U_Idle -> forall r, old_open (rd s r) = false.
+(* old_open marks registered readers only, so the redundant disjunct in the membarrier step of GpCore.step changes nothing *)
+Lemma old_open_registered isreg : forall s, reach (init isreg) s -> forall r, old_open (rd s r) = true -> reg s r = true.
 Proof.
-  intros s Hr. assert (HI : Inv s).
+  intros s Hr. induction Hr as [|s s' _ IH Ht]; [intros r H; discriminate H|].
+  destruct Ht as [c s|s s' Hu].
+  - destruct c as [r0|r0|r0| |r0]; cbn [step]; intros r.
+    + destruct (pc (rd s r0)); cbn; unfold upd; destruct (Nat.eqb r r0) eqn:E; cbn; try apply IH; apply Nat.eqb_eq in E; subst; apply IH.
+    + destruct (pc (rd s r0)) as [| |p [|n]]; cbn; try apply IH; unfold upd; destruct (Nat.eqb r r0) eqn:E; cbn; try apply IH; try discriminate;
+        apply Nat.eqb_eq in E; subst; apply IH.
+    + destruct (rbuf (rd s r0)); cbn; [apply IH|]. unfold upd; destruct (Nat.eqb r r0) eqn:E; cbn; [apply Nat.eqb_eq in E; subst; apply IH|apply IH].
+    + destruct (ph s); cbn; try apply IH. intros H. apply andb_prop in H. destruct H as [_ H]. exact H.
+    + destruct (ph s); cbn; try apply IH; destruct (loc s r0); cbn; try apply IH;
+        destruct (Nat.eqb (snd (rmem (rd s r0))) 0); cbn; try apply IH; destruct (Bool.eqb (fst (rmem (rd s r0))) (gpar s)); cbn; apply IH.
+  - destruct Hu; cbn; apply IH.
+Qed.
+
+Theorem gp_waits_for_preexisting_readers :
+  forall isreg s, reach (init isreg) s -> ph s = U_Idle -> forall r, old_open (rd s r) = false.
+Proof.
+  intros isreg s Hr. assert (HI : Inv s).
   { induction Hr as [|s s' _ IH Ht]; [apply Inv_init|].
     destruct Ht as [c s|s s' Hu]; [apply Inv_step; exact IH|eapply Inv_ustep; eassumption]. }
   destruct HI as (_ & H & _). exact H.
